@@ -155,6 +155,19 @@ func (u *Unit) ensureSpecFunc(name string) *SpecFunc {
 	if body.Sort != rs && !(body.Sort.Name == rs.Name) {
 		sfail("spec function %s: body sort %s, declared %s", name, body.Sort.Name, rs.Name)
 	}
+	if (sf.Opaque || (hasQuant(sf.Body) && !sf.Macro)) && !recursive {
+		// declared symbol + definitional axiom triggered on applications (usable as an E-matching trigger)
+		var ss, as []string
+		for _, p := range sf.Params {
+			s, _ := u.sortOfTypeStr(p.Type)
+			ss = append(ss, s.Name)
+			as = append(as, "p."+p.Name)
+		}
+		u.c.emit(fmt.Sprintf("(declare-fun %s (%s) %s)", "sf."+name, strings.Join(ss, " "), rs.Name))
+		appl := "(sf." + name + " " + strings.Join(as, " ") + ")"
+		u.c.emit(fmt.Sprintf("(assert (forall (%s) (! (= %s %s) :pattern (%s))))", strings.Join(ps, " "), appl, body.S, appl))
+		return sf
+	}
 	kw := "define-fun"
 	if recursive {
 		kw = "define-fun-rec"
@@ -257,6 +270,53 @@ func (env *Env) eval(e *SX) Term {
 		a := env.eval(e.Args[1])
 		b := env.eval(e.Args[2])
 		return tIte(cnd, a, b)
+	case "setof":
+		// setof k T :: P(k)  -- a fresh set constant S with  forall k. S[k] <=> (wellTyped(k) && P(k))
+		ch := env.child()
+		if len(e.Binders) != 1 {
+			sfail("setof takes exactly one binder")
+		}
+		b := e.Binders[0]
+		bs, gt := u.sortOfTypeStr(b.Type)
+		v := Term{S: c.freshName("q." + b.Name), Sort: bs, Go: gt}
+		ch.vars[b.Name] = v
+		body := ch.evalBool(e.Args[0])
+		if gt != nil && b.Type != "int" {
+			body = tAnd(c.typeFacts(v, gt, 0), body)
+		}
+		set := c.fresh("setof", c.setSort(bs))
+		pats := fmt.Sprintf(":pattern ((select %s %s))", set.S, v.S)
+		// alternative triggers: applications of opaque spec functions that take the bound variable directly
+		var walk func(n *SX)
+		seen := map[string]bool{}
+		walk = func(n *SX) {
+			if n == nil {
+				return
+			}
+			if n.Op == "call" {
+				if sf := u.cs.SpecFuncs[n.Name]; sf != nil && (sf.Opaque || sf.Body == nil) {
+					direct := false
+					for _, a := range n.Args[1:] {
+						if a.Op == "ident" && a.Name == b.Name {
+							direct = true
+						}
+					}
+					if direct {
+						t := ch.eval(n)
+						if !seen[t.S] {
+							seen[t.S] = true
+							pats += fmt.Sprintf(" :pattern (%s)", t.S)
+						}
+					}
+				}
+			}
+			for _, a := range n.Args {
+				walk(a)
+			}
+		}
+		walk(e.Args[0])
+		c.axiom(Term{S: fmt.Sprintf("(forall ((%s %s)) (! (= (select %s %s) %s) %s))", v.S, bs.Name, set.S, v.S, body.S, pats), Sort: sortBool})
+		return set
 	case "forall", "exists":
 		ch := env.child()
 		var bs []string
@@ -313,10 +373,12 @@ func (env *Env) eval(e *SX) Term {
 			return c.slAt(base, idx)
 		case KMap:
 			return c.mapVal(base, idx)
-		case KSet, KArr:
+		case KSet:
+			return app(sortBool, "select", base, idx)
+		case KArr:
 			return app(base.Sort.Elem, "select", base, idx)
 		case KStr:
-			return app(sortInt, "str.at", base, idx)
+			return app(sortInt, "gs.at", base, idx)
 		}
 		sfail("cannot index %s", base.Sort.Name)
 	case "slice":
@@ -331,7 +393,7 @@ func (env *Env) eval(e *SX) Term {
 		} else if base.Sort.Kind == KSlice {
 			hi = c.slLen(base)
 		} else {
-			hi = app(sortInt, "str.len", base)
+			hi = app(sortInt, "gs.len", base)
 		}
 		return u.subSeq(base, lo, hi)
 	case "call":
@@ -418,7 +480,7 @@ func (u *Unit) subSeq(s, lo, hi Term) Term {
 		return app(s.Sort, fn, s, lo, hi)
 	case KStr:
 		u.ensureStrSub()
-		return app(sortStr, "str.sub", s, lo, hi)
+		return app(sortStr, "gs.sub", s, lo, hi)
 	}
 	sfail("cannot slice %s", s.Sort.Name)
 	return Term{}
@@ -426,25 +488,25 @@ func (u *Unit) subSeq(s, lo, hi Term) Term {
 
 func (u *Unit) ensureStrSub() {
 	c := u.c
-	if c.declared["str.sub"] {
+	if c.declared["gs.sub"] {
 		return
 	}
-	c.declared["str.sub"] = true
-	c.emit("(declare-fun str.sub (Str Int Int) Str)")
-	c.emit("(assert (forall ((s Str) (a Int) (b Int)) (! (=> (<= a b) (= (str.len (str.sub s a b)) (- b a))) :pattern ((str.sub s a b)))))")
-	c.emit("(assert (forall ((s Str) (a Int) (b Int) (j Int)) (! (=> (and (<= 0 j) (< j (- b a))) (= (str.at (str.sub s a b) j) (str.at s (+ a j)))) :pattern ((str.at (str.sub s a b) j)))))")
-	c.emit("(assert (forall ((s Str)) (! (= (str.sub s 0 (str.len s)) s) :pattern ((str.sub s 0 (str.len s))))))")
+	c.declared["gs.sub"] = true
+	c.emit("(declare-fun gs.sub (Str Int Int) Str)")
+	c.emit("(assert (forall ((s Str) (a Int) (b Int)) (! (=> (<= a b) (= (gs.len (gs.sub s a b)) (- b a))) :pattern ((gs.sub s a b)))))")
+	c.emit("(assert (forall ((s Str) (a Int) (b Int) (j Int)) (! (=> (and (<= 0 j) (< j (- b a))) (= (gs.at (gs.sub s a b) j) (gs.at s (+ a j)))) :pattern ((gs.at (gs.sub s a b) j)))))")
+	c.emit("(assert (forall ((s Str)) (! (= (gs.sub s 0 (gs.len s)) s) :pattern ((gs.sub s 0 (gs.len s))))))")
 }
 
 func (u *Unit) ensureStrCat() {
 	c := u.c
-	if c.declared["str.cat"] {
+	if c.declared["gs.cat"] {
 		return
 	}
-	c.declared["str.cat"] = true
-	c.emit("(declare-fun str.cat (Str Str) Str)")
-	c.emit("(assert (forall ((a Str) (b Str)) (! (= (str.len (str.cat a b)) (+ (str.len a) (str.len b))) :pattern ((str.cat a b)))))")
-	c.emit("(assert (forall ((a Str) (b Str) (j Int)) (! (= (str.at (str.cat a b) j) (ite (< j (str.len a)) (str.at a j) (str.at b (- j (str.len a))))) :pattern ((str.at (str.cat a b) j)))))")
+	c.declared["gs.cat"] = true
+	c.emit("(declare-fun gs.cat (Str Str) Str)")
+	c.emit("(assert (forall ((a Str) (b Str)) (! (= (gs.len (gs.cat a b)) (+ (gs.len a) (gs.len b))) :pattern ((gs.cat a b)))))")
+	c.emit("(assert (forall ((a Str) (b Str) (j Int)) (! (= (gs.at (gs.cat a b) j) (ite (< j (gs.len a)) (gs.at a j) (gs.at b (- j (gs.len a))))) :pattern ((gs.at (gs.cat a b) j)))))")
 }
 
 func (env *Env) nilCompare(x Term, neg bool) Term {
@@ -522,18 +584,18 @@ func (env *Env) evalBin(e *SX) Term {
 		env.u.ensureStrOrder()
 		switch op {
 		case "<":
-			return app(sortBool, "str.lt", a, b)
+			return app(sortBool, "gs.lt", a, b)
 		case ">":
-			return app(sortBool, "str.lt", b, a)
+			return app(sortBool, "gs.lt", b, a)
 		case "<=":
-			return tNot(app(sortBool, "str.lt", b, a))
+			return tNot(app(sortBool, "gs.lt", b, a))
 		default:
-			return tNot(app(sortBool, "str.lt", a, b))
+			return tNot(app(sortBool, "gs.lt", a, b))
 		}
 	}
 	if a.Sort.Kind == KStr && op == "+" {
 		env.u.ensureStrCat()
-		return app(sortStr, "str.cat", a, b)
+		return app(sortStr, "gs.cat", a, b)
 	}
 	if a.Sort.Kind == KStruct && a.Sort.Name == "Time" {
 		a = app(sortInt, "Time.ns", a)
@@ -561,13 +623,13 @@ func (env *Env) evalBin(e *SX) Term {
 
 func (u *Unit) ensureStrOrder() {
 	c := u.c
-	if c.declared["str.order"] {
+	if c.declared["gs.order"] {
 		return
 	}
-	c.declared["str.order"] = true
-	c.emit("(assert (forall ((a Str)) (not (str.lt a a))))")
-	c.emit("(assert (forall ((a Str) (b Str) (c Str)) (=> (and (str.lt a b) (str.lt b c)) (str.lt a c))))")
-	c.emit("(assert (forall ((a Str) (b Str)) (or (str.lt a b) (str.lt b a) (= a b))))")
+	c.declared["gs.order"] = true
+	c.emit("(assert (forall ((a Str)) (not (gs.lt a a))))")
+	c.emit("(assert (forall ((a Str) (b Str) (c Str)) (=> (and (gs.lt a b) (gs.lt b c)) (gs.lt a c))))")
+	c.emit("(assert (forall ((a Str) (b Str)) (or (gs.lt a b) (gs.lt b a) (= a b))))")
 }
 
 func (u *Unit) seqEq(a, b Term) Term {
@@ -598,7 +660,7 @@ func (env *Env) evalCall(e *SX) Term {
 		case KMap:
 			return c.mapCard(x)
 		case KStr:
-			return app(sortInt, "str.len", x)
+			return app(sortInt, "gs.len", x)
 		}
 		sfail("len of %s", x.Sort.Name)
 	case "in", "has":
@@ -620,6 +682,9 @@ func (env *Env) evalCall(e *SX) Term {
 		return c.mapDom(ev(0))
 	case "card":
 		return c.mapCard(ev(0))
+	case "same":
+		// native (term-level) equality, also for slices
+		return tEq(ev(0), ev(1))
 	case "isnil":
 		return env.nilCompare(ev(0), false)
 	case "min":
@@ -640,6 +705,12 @@ func (env *Env) evalCall(e *SX) Term {
 	case "setdel":
 		a, k := ev(0), ev(1)
 		return app(a.Sort, "store", a, k, tFalse)
+	case "setrange":
+		// setrange(S, lo, hi): S united with the closed integer interval [lo, hi]
+		a, lo, hi := ev(0), ev(1), ev(2)
+		r := c.fresh("setrange", a.Sort)
+		c.axiom(Term{S: fmt.Sprintf("(forall ((k!s Int)) (! (= (select %s k!s) (or (select %s k!s) (and (<= %s k!s) (<= k!s %s)))) :pattern ((select %s k!s))))", r.S, a.S, lo.S, hi.S, r.S), Sort: sortBool})
+		return r
 	case "emptyset":
 		// emptyset(x) : empty set with the element sort of x's sort
 		x := ev(0)
@@ -705,22 +776,101 @@ func (u *Unit) pureGoCall(key string, args func() []Term) (Term, bool) {
 	if fn == nil {
 		return Term{}, false
 	}
-	sig := fn.Type().(*types.Signature)
-	if sig.Results().Len() != 1 {
-		sfail("pure Go function %s must have exactly one result", key)
-	}
 	ts := args()
-	name := "gofn." + sanitize(key)
-	rs := u.c.sortOf(sig.Results().At(0).Type())
-	if !u.c.declared[name] {
-		u.c.declared[name] = true
-		var ss []string
-		for _, t := range ts {
-			ss = append(ss, t.Sort.Name)
-		}
-		u.c.emit(fmt.Sprintf("(declare-fun %s (%s) %s)", name, strings.Join(ss, " "), rs.Name))
+	sig := fn.Type().(*types.Signature)
+	// coerce pointer arguments to the declared parameter sorts
+	off := 0
+	if sig.Recv() != nil {
+		off = 1
 	}
-	r := app(rs, name, ts...)
-	r.Go = sig.Results().At(0).Type()
-	return r, true
+	for i := range ts {
+		var want types.Type
+		if i == 0 && off == 1 {
+			want = sig.Recv().Type()
+		} else if i-off < sig.Params().Len() {
+			want = sig.Params().At(i - off).Type()
+		}
+		if want != nil {
+			ws := u.c.sortOf(want)
+			if ws.Kind != KPtr && ts[i].Sort.Kind == KPtr {
+				ts[i] = u.c.ptrVal(ts[i])
+			}
+		}
+	}
+	u.ensurePureAxiom(key, ct, fn)
+	return u.pureGoCallTerms(key, fn, ts)
+}
+
+// ensurePureAxiom: the contract of a pure Go function as a quantified axiom over its
+// uninterpreted symbol (justified by verifying the function against that contract).
+func (u *Unit) ensurePureAxiom(key string, ct *Contract, fn *types.Func) {
+	name := "pureax." + u.pkg.Name + "." + key
+	if u.c.declared[name] {
+		return
+	}
+	u.c.declared[name] = true
+	sig := fn.Type().(*types.Signature)
+	env := &Env{u: u, vars: map[string]Term{}}
+	var bs []string
+	var ts []Term
+	var guards []Term
+	add := func(v *types.Var, nm string) {
+		s := u.c.sortOf(v.Type())
+		t := Term{S: "ax." + nm, Sort: s, Go: v.Type()}
+		env.vars[nm] = t
+		bs = append(bs, fmt.Sprintf("(%s %s)", t.S, s.Name))
+		ts = append(ts, t)
+		guards = append(guards, u.c.typeFacts(t, v.Type(), 0))
+	}
+	if sig.Recv() != nil {
+		rn := sig.Recv().Name()
+		if rn == "" || rn == "_" {
+			rn = "recv"
+		}
+		add(sig.Recv(), rn)
+	}
+	for i := 0; i < sig.Params().Len(); i++ {
+		nm := sig.Params().At(i).Name()
+		if nm == "" || nm == "_" {
+			nm = fmt.Sprintf("p%d", i)
+		}
+		add(sig.Params().At(i), nm)
+	}
+	r, ok := u.pureGoCallTerms(key, fn, ts)
+	if !ok {
+		return
+	}
+	env.vars["r0"] = r
+	env.vars["result"] = r
+	if rn := sig.Results().At(0).Name(); rn != "" && rn != "_" {
+		env.vars[rn] = r
+	}
+	env.old = env
+	for _, q := range ct.Requires {
+		guards = append(guards, env.evalBool(q.Expr))
+	}
+	var posts []Term
+	posts = append(posts, u.c.typeFacts(r, sig.Results().At(0).Type(), 0))
+	for _, q := range ct.Ensures {
+		posts = append(posts, env.evalBool(q.Expr))
+	}
+	body := tImp(tAnd(guards...), tAnd(posts...))
+	u.c.emit("; contract of pure function " + key + " as axiom")
+	u.c.emit(fmt.Sprintf("(assert (forall (%s) (! %s :pattern (%s))))", strings.Join(bs, " "), body.S, r.S))
+	u.c.note("contract of pure function used as quantified axiom (proved separately under its own obligations): " + u.pkg.Name + "." + key)
+}
+
+func hasQuant(e *SX) bool {
+	if e == nil {
+		return false
+	}
+	if e.Op == "forall" || e.Op == "exists" {
+		return true
+	}
+	for _, a := range e.Args {
+		if hasQuant(a) {
+			return true
+		}
+	}
+	return false
 }
